@@ -45,13 +45,15 @@ type Card struct {
 	curFID uint16
 
 	// chunking policy for READ BINARY
-	MaxReturn     int         // at most this many bytes per response (0 = no cap)
-	ShortReadRNG  *mrand.Rand // when set, return a random 1..allowed number of bytes
-	LeCap         int         // when > 0: Ne above this is refused ...
-	LeCapSW       uint16      // ... with this status (0x6700, or 0x6C00 to answer 6C xx)
-	Extended      bool        // extended-length APDUs supported (else 6700)
-	EOFWarning    bool        // 6282 instead of 9000 when fewer bytes than Ne remain
-	ZeroReadAbove int         // jmrtd-applet quirk: Ne above this returns no data with 9000 (0 = off)
+	MaxReturn    int         // at most this many bytes per response (0 = no cap)
+	ShortReadRNG *mrand.Rand // when set, return a random 1..allowed number of bytes
+	// ShortReadMinNe: short random reads only apply to requests longer than this
+	ShortReadMinNe int
+	LeCap          int    // when > 0: Ne above this is refused ...
+	LeCapSW        uint16 // ... with this status (0x6700, or 0x6C00 to answer 6C xx)
+	Extended       bool   // extended-length APDUs supported (else 6700)
+	EOFWarning     bool   // 6282 instead of 9000 when fewer bytes than Ne remain
+	ZeroReadAbove  int    // jmrtd-applet quirk: Ne above this returns no data with 9000 (0 = off)
 
 	// access control
 	AuthRequired bool // LDS files readable only after BAC / PACE
@@ -308,7 +310,7 @@ func (c *Card) doReadBinary(cmd *Cmd) ([]byte, uint16) {
 	if c.MaxReturn > 0 && n > c.MaxReturn {
 		n = c.MaxReturn
 	}
-	if c.ShortReadRNG != nil && n > 1 {
+	if c.ShortReadRNG != nil && n > 1 && cmd.Ne > c.ShortReadMinNe {
 		n = 1 + c.ShortReadRNG.IntN(n)
 	}
 	return append([]byte{}, c.cur[off:off+n]...), sw
